@@ -29,6 +29,9 @@ pub enum Flavour {
 }
 
 pub const FLAVOURS: [Flavour; 3] = [Flavour::Blocking, Flavour::Async, Flavour::AsyncPending];
+/// including the interrupted / cancelled ways of calling `receive`
+pub const ALL_FLAVOURS: [Flavour; 5] =
+    [Flavour::Blocking, Flavour::Async, Flavour::AsyncPending, Flavour::BlockingInterrupted, Flavour::AsyncCancelled];
 
 #[derive(Clone, Debug, PartialEq, Eq, Serialize, Deserialize, Hash)]
 pub enum Terminal {
@@ -356,10 +359,10 @@ impl History {
 pub fn history_strategy() -> impl proptest::strategy::Strategy<Value = History> {
     use proptest::prelude::*;
     prop_oneof![
-        10 => Just(History::default()),
-        3 => (prop_oneof![1..40u16, 250..262u16, 1020..1030u16, 1..1500u16], any::<bool>()).prop_map(|(distinct_keys, same_keys_first)| History { distinct_keys, same_keys_first, blowup_kib: 0 }),
-        2 => Just(History { distinct_keys: 0, same_keys_first: true, blowup_kib: 0 }),
-        1 => (prop_oneof![Just(70u16), Just(1100), Just(2100), Just(4200)], 0..300u16, any::<bool>()).prop_map(|(blowup_kib, distinct_keys, same_keys_first)| History { distinct_keys, same_keys_first, blowup_kib }),
+        40 => Just(History::default()),
+        12 => (prop_oneof![1..40u16, 250..262u16, 1020..1030u16, 1..1500u16], any::<bool>()).prop_map(|(distinct_keys, same_keys_first)| History { distinct_keys, same_keys_first, blowup_kib: 0 }),
+        8 => Just(History { distinct_keys: 0, same_keys_first: true, blowup_kib: 0 }),
+        1 => (prop_oneof![3 => Just(70u16), 1 => Just(1100), 1 => Just(2100), 1 => Just(4200)], 0..300u16, any::<bool>()).prop_map(|(blowup_kib, distinct_keys, same_keys_first)| History { distinct_keys, same_keys_first, blowup_kib }),
     ]
 }
 
